@@ -297,6 +297,8 @@ def run(ctx):
 SCHED = 'src/myth_sched_func.h'
 SYNC = 'src/myth_sync_func.h'
 MUTANTS = [
+    {'name': 'nanosecond range checked on the low 32 bits only (seed3 C20/m1)', 'expect': 'C20.1',
+     'edits': [(SCHED, "  if (req->tv_nsec < 0) return EINVAL;\n  if (req->tv_nsec > 999999999) return EINVAL;", "  if ((unsigned)req->tv_nsec > 999999999U) return EINVAL;")]},
     {'name': 'native myth_usleep forwards to sleep (seconds)', 'expect': 'C20.6',
      'edits': [('src/myth_if_native.c', "  return myth_usleep_body(usec);", "  return myth_sleep_body(usec);")]},
     {'name': 'deadlines compared with the coarse clock (seed2 C20/m1)', 'expect': 'C20.5',
